@@ -573,6 +573,25 @@ class ServerFacts:
             return [e.value for e in d.elts]
         return None
 
+    def parse_command_shape(self):
+        """True only for: `s = line.decode(encoding=self.encoding).rstrip()` (no argument: all white space),
+        `cmd, _, rest = s.partition(' ')`, `return (cmd.lower(), rest)` - what `Model.Session.parseCommand` says"""
+        node = self.methods["parse_command"]
+        texts = [ast.unparse(st) for st in node.body]
+        need = ["s = line.decode(encoding=self.encoding).rstrip()", "cmd, _, rest = s.partition(' ')", "return (cmd.lower(), rest)"]
+        pos = -1
+        for t in need:
+            if t not in texts[pos + 1 :]:
+                return False
+            pos = texts.index(t, pos + 1)
+        # nothing else may assign to s, cmd or rest
+        for n in ast.walk(node):
+            if isinstance(n, (ast.Assign, ast.AugAssign, ast.AnnAssign)) and ast.unparse(n) not in need:
+                targets = n.targets if isinstance(n, ast.Assign) else [n.target]
+                if any(isinstance(x, ast.Name) and x.id in ("s", "cmd", "rest") for t in targets for x in ast.walk(t)):
+                    return False
+        return True
+
     def rest_predicate(self):
         """the str predicate that guards `int(rest)` in the REST handler"""
         node = self.methods["rest"]
@@ -748,6 +767,8 @@ def gen_server():
     lines.append("def passiveStartLocked : Bool := %s" % ("true" if F.passive_start_locked() else "false"))
     lines.append("/-- `dispatcher` starts with `if not self.server.is_serving(): writer.close(); return` -/")
     lines.append("def dispatcherRefusesWhenNotServing : Bool := %s" % ("true" if F.dispatcher_refuses_when_not_serving() else "false"))
+    lines.append("/-- `parse_command` is decode, `rstrip()` without argument, `partition(' ')`, `lower()` of the first word -/")
+    lines.append("def parseCommandRstripPartitionLower : Bool := %s" % ("true" if F.parse_command_shape() else "false"))
     lines.append("/-- the dispatcher starts the handler of a command only when the handler of the previous one has returned -/")
     lines.append("def dispatcherOneCommandAtATime : Bool := %s" % ("true" if F.dispatcher_one_command_at_a_time() else "false"))
     _fin, _drain, _skip = F.reply_queue_facts()
